@@ -200,6 +200,7 @@ struct MtRun {
       if (p.kind == "vf") { p.ps = std::make_shared<PhysStream>(); MuxPolicy mp; mp.policy = (int)t->i("pol", 0); mp.k = (int)t->i("k", 4); mp.serial = 1000 + (long)prep.size(); mux_link(*p.ps, p.l, mp);
         if (t->has("r2ch")) { Recipe r2 = p.r; r2.ch = (int)t->i("r2ch"); r2.rate = t->i("r2rate", r2.rate); r2.seed = p.r.seed + 1; r2.n = std::min<int64_t>(p.r.n, 6000); auto l2 = get_link(r2); if (l2->ok && !l2->ref_err) { MuxPolicy m2 = mp; m2.serial = 5000 + (long)prep.size(); mux_link(*p.ps, l2, m2); } }
         p.total = 0; for (auto &l : p.ps->links) p.total += l->len;
+        if (t->has("trunc")) { auto cp = std::make_shared<PhysStream>(*p.ps); int64_t cut = std::min<int64_t>(t->i("trunc"), (int64_t)cp->bytes.size() / 2); cp->bytes.resize(cp->bytes.size() - (size_t)cut); p.ps = cp; }   // a file cut off inside its last pages: the totals come from whatever page is found last
         if (t->has("junk")) { auto cp = std::make_shared<PhysStream>(*p.ps); Prng j(p.seed ^ 0x77); int64_t nj = t->i("junk"); for (int64_t q = 0; q < nj; q++) cp->bytes.push_back((uint8_t)(0x80 | j.below(0x7f))); p.ps = cp; } }   // a few trailing non-Ogg bytes: open and seeks really run into the end of the data
       prep.push_back(p);
     }
@@ -254,10 +255,11 @@ struct MtGen {
     for (int i = 0; i < nt; i++) {
       Rec &t = p.add("task"); double u = g.unit(); std::string kind = u < 0.4 ? "enc" : u < 0.65 ? "dec" : "vf";
       Recipe r = recipe(kind == "enc");
+      if (kind == "enc" && g.chance(0.12)) r.n = (int64_t)g.below(70);   // a handful of samples: the encoder's lead-in and end-of-stream extrapolation work on what the buffers held before
       if (kind != "enc" && g.chance(0.18)) { Recipe z; z.craft = 1; z.ch = (int)g.range(1, 3); z.rate = r.rate; z.seed = g.below(thorough ? 400 : 40); z.n = (int64_t)(20 + 20 * g.below(5)); z.ncomm = 1; auto lz = get_link(z); if (lz->ok && !lz->ref_err && lz->len > 0) r = z; }   // hand-built set-ups: floor 0, residue 0, lookup type 2 ... under other heap contents and interleavings too
       r.to(t); t.set("kind", kind).setu("tseed", g.below(100000));
       if (kind == "dec") t.set("halfrate", g.chance(0.15) ? 1 : 0);
-      if (kind == "vf") { t.set("seekable", g.chance(0.8) ? 1 : 0).set("rdpol", (int64_t)g.below(5)).set("rdk", (int64_t)g.range(16, 3000)).set("pol", (int64_t)g.below(4)).set("k", 4); if (g.chance(0.4)) t.set("r2ch", (int64_t)g.range(1, 2)).set("r2rate", g.chance(0.5) ? 22050 : 48000); if (g.chance(0.3)) t.set("junk", (int64_t)g.range(1, 26)); }
+      if (kind == "vf") { t.set("seekable", g.chance(0.8) ? 1 : 0).set("rdpol", (int64_t)g.below(5)).set("rdk", (int64_t)g.range(16, 3000)).set("pol", (int64_t)g.below(4)).set("k", 4); if (g.chance(0.4)) t.set("r2ch", (int64_t)g.range(1, 2)).set("r2rate", g.chance(0.5) ? 22050 : 48000); if (g.chance(0.3)) t.set("junk", (int64_t)g.range(1, 26)); else if (g.chance(0.2)) t.set("trunc", (int64_t)g.range(1, 6000)); }
     }
     Rec &s = p.add("sched"); int strat = (int)g.below(4);
     s.set("strategy", strat).setu("seed", g.next() % 1000000).set("gap", (int64_t)(g.chance(0.3) ? g.range(20, 200) : g.range(200, 5000)));
